@@ -5,10 +5,10 @@
 # files=["sim_", "c02_"], run="TestVerifC02", ...)) and its counters to _C02_MUST; rule / level_text already cover both.
 _C02_UNITS = [
     dict(name="table", harness="t_table", files=["common_", "c02_"], run="TestVerifC02",
-         shards=dict(quick=16, thorough=16), timeout_s=dict(quick=900, thorough=7200)),
+         shards=dict(quick=16, thorough=16), timeout_s=dict(quick=900, thorough=10800)),
     # concurrent histories only, under the race detector (the quick tier runs 4 concurrent cases inside unit "table", without the detector)
     dict(name="table_race", harness="t_table", files=["common_", "c02_"], run="TestVerifC02", race=True, tiers=["thorough"],
-         env={"VERIF_C02_RACE": "1"}, gomaxprocs=[4, 8, 16], shards=dict(quick=4, thorough=8), timeout_s=dict(quick=900, thorough=7200)),
+         env={"VERIF_C02_RACE": "1"}, gomaxprocs=[4, 8, 16], shards=dict(quick=4, thorough=8), timeout_s=dict(quick=900, thorough=10800)),
 ]
 _C02_MUST = (
     ["ops", "full_comparisons", "comparisons_after_change", "dest_checks_loc", "dest_checks_adj", "counter_checks", "adj_tableinfo_checks",
